@@ -204,8 +204,11 @@ def op_mkfield(st, o):
     kw = dict(nvdim=nvdim, value=arr.copy())
     if o.get("valid"):
         kw["valid"] = valid.copy()  # otherwise the constructor's own default (True) is exercised
-    if o.get("mapping") is not None:
-        kw["vdim_mapping"] = dict(o["mapping"])
+    if o.get("mapping") is not None and nvdim > 1 and len(o["mapping"]["perm"]) == nvdim and sorted(o["mapping"]["order"]) == list(range(nvdim)):
+        names = list(o["vdims"]) if o.get("vdims") is not None else (["x", "y", "z"][:nvdim] if nvdim <= 3 else [f"v{i}" for i in range(nvdim)])
+        dims = list(mm.region.dims)
+        mp = {names[i]: (dims[t] if 0 <= t < len(dims) else None) for i, t in enumerate(o["mapping"]["perm"][:nvdim])}
+        kw["vdim_mapping"] = {names[i]: mp[names[i]] for i in o["mapping"]["order"] if i < nvdim}
     if o.get("vdims") is not None:
         kw["vdims"] = list(o["vdims"])
     if o.get("unit") is not None:
